@@ -47,6 +47,22 @@ H_MACROS = ["panic", "unreachable", "write", "vec", "matches", "format", "assert
 H_FNS = ["drop", "transmute", "unreachable_unchecked", "size_of", "swap"]
 
 
+USER_IMPORTS = [
+    "use ::core::iter::{Iterator, IntoIterator, DoubleEndedIterator, ExactSizeIterator, FusedIterator, Map, Copied};",
+    "use ::core::option::Option::{self, Some, None};",
+    "use ::core::result::Result::{self, Ok, Err};",
+    "use ::core::mem::{self, MaybeUninit, transmute};",
+    "use ::core::ops::RangeInclusive;",
+    "use ::core::fmt::{self, Debug, Display, Formatter, Write};",
+    "use ::core::convert::{From, Into, TryFrom, TryInto};",
+    "use ::core::str::FromStr;",
+    "use ::core::marker::{Copy, Sized};",
+    "use ::core::clone::Clone;",
+    "use ::core::array::IntoIter;",
+    "use ::core::slice::Iter;",
+]
+
+
 def hostile_items(names):
     out = []
     for n in names:
@@ -76,7 +92,7 @@ def cases(draw, tier="quick"):
     taken = set(H_TYPES) | set(H_TRAITS) | set(H_MODS) | set(H_FNS)
     for f in cfg["feats"]:
         f["params"] = [p_ for p_ in f["params"] if not (p_[0] == "struct_name" and p_[1] in taken)]
-    ctxs = draw(st.lists(st.sampled_from(["hostile", "no_prelude", "fn_body", "no_std_lib", "hostile_all", "hostile"]),
+    ctxs = draw(st.lists(st.sampled_from(["hostile", "no_prelude", "fn_body", "no_std_lib", "hostile_all", "hostile", "imports", "two_enums"]),
                          min_size=2, max_size=4, unique=True))
     hostile = draw(st.lists(st.sampled_from(ALL_HOSTILE), min_size=1, max_size=12, unique=True))
     # a name may be used once per namespace: a unit struct and a trait of the same name collide (type namespace)
@@ -114,6 +130,7 @@ def run_small_scope(case):
         singles = C.scope_configs(1, m.gapless) + [S.simple_config(E.ALL_FEATURES)]
         for ctx, kw, use in (("no_std", {"crate_attrs": "#![no_std]\n"}, cfgs),
                              ("no_implicit_prelude", {"module_prefix": "    #![no_implicit_prelude]\n"}, cfgs),
+                             ("user_imports", {"module_prefix": "".join("    " + l + "\n" for l in USER_IMPORTS)}, cfgs),
                              ("hostile_all", {"module_prefix": hostile_prefix}, singles),
                              ("hostile_all+no_implicit_prelude", {"module_prefix": "    #![no_implicit_prelude]\n" + hostile_prefix}, singles)):
             items = [(i, E.enum_item_text(spec, c)) for i, c in enumerate(use)]
@@ -172,6 +189,17 @@ def run_case(case):
         elif cx == "hostile_all":
             modules.append((spec, cfg, {"kind": "hostile", "items": hostile_items(all_hostile_unique()),
                                         "no_prelude": case["hostile_no_prelude"]}))
+        elif cx == "imports":
+            # the user imports the real core items under their own names: anything the derive puts at module level
+            # (rather than inside its own fns / impls) collides with these
+            modules.append((spec, cfg, {"kind": "hostile", "items": USER_IMPORTS, "no_prelude": case["hostile_no_prelude"]}))
+        elif cx == "two_enums":
+            # a second derive in the same module (own identifier, default names)
+            other = copy.deepcopy(spec)
+            other["ident"] = "Other"
+            ocfg = {"feats": [{"f": f["f"], "params": [p_ for p_ in f["params"] if p_[0] == "mode"]} for f in cfg["feats"]],
+                    "groups": [len(cfg["feats"])] if cfg["feats"] else [], "pos": ["pre"] if cfg["feats"] else []}
+            modules.append((spec, cfg, {"kind": "hostile", "items": [E.enum_item_text(other, ocfg)], "no_prelude": False}))
         elif cx == "no_std_lib":
             lib_src = E.lib_source(spec, cfg, no_std=True)
             lc = build.rustc(lib_src, mode="rlib", crate_name="lib0")
